@@ -156,6 +156,10 @@ func c17Plan(src *vs.Src, p *c17Params, body []byte) []peer.FragSpec {
 	case "conflict-later":
 		frs = append(frs, peer.FragSpec{Off: 0, Len: 1, Total: n + 1 + src.Intn(50)})
 	}
+	if p.Variant == "cover" && src.Bool(1, 3) {
+		// a fragment without any bytes at offset 0 (legal, useless): it covers nothing
+		frs = append(frs, peer.FragSpec{Off: 0, Len: 0})
+	}
 	// duplicates
 	for i := 0; i < 1+src.Intn(3) && len(frs) > 0; i++ {
 		frs = append(frs, frs[src.Intn(len(frs))])
@@ -166,7 +170,15 @@ func c17Plan(src *vs.Src, p *c17Params, body []byte) []peer.FragSpec {
 		rest := shuffleFrs(src, frs[1:])
 		return append([]peer.FragSpec{first}, rest...)
 	}
-	return shuffleFrs(src, frs)
+	out := shuffleFrs(src, frs)
+	if p.Variant == "cover" && p.Role == "server" && len(out) > 1 && src.Bool(1, 3) {
+		// (towards a server only: a client that times out inside the server's first flight re-sends its hello
+		// under a new message_seq, which is known finding K2 of C19 and would mask what is looked at here)
+		// the sender is slow: one fragment (not the first) comes 1.3 s after the one before it - later than the
+		// receiver's first retransmission timeout
+		out[1+src.Intn(len(out)-1)].DelayMs = 1300
+	}
+	return out
 }
 
 func shuffleFrs(src *vs.Src, f []peer.FragSpec) []peer.FragSpec {
@@ -327,6 +339,7 @@ func c17Frag(c *Case, src *vs.Src, p *c17Params, r *Result) *Result {
 	} else {
 		h.Peer.OwnEncKey = sm2Key("client_enc")
 	}
+	h.Peer.Sleep = vs.Sleep
 	var plan []peer.FragSpec
 	var bodyLen int
 	targetType := map[string]byte{"CERT": ref.TCertificate, "SKX": ref.TServerKeyExchange, "SH": ref.TServerHello, "CKE": ref.TClientKeyExchange, "CV": ref.TCertificateVerify}[p.Target]
